@@ -5,8 +5,8 @@
     pinned_filter_matches_subtask_placeholder keep the two pinned behaviours (findings F-C15b, F-C15a, fixed), C15_after_trigger (every creator evaluation is preceded by the terminal report of the
     creator's `executed` task), C15_loader_after_deps, C15_created_at_most_once / C15_report_means_finished (once-only
     half of created_obey), C15_created_obey / C15_created_start_after_deps (ordering half: obeyOK over the table of
-    the Task objects the nodes hold) and C15_created_obey_table (over TaskControl.tasks, unless a started task was
-    re-defined), C15_created_utd (up-to-date rule), C15_target / C15_target_producer_first (structural core of the
+    the Task objects the nodes hold), C15_created_obey_tasks (over TaskControl.tasks; hypothesis noRedefB, needed:
+    created_obey_needs_noRedef), C15_node_holds_table, C15_created_obey_table (bridge), C15_created_utd (up-to-date rule), C15_target / C15_target_producer_first (structural core of the
     target rule; hypothesis rxB), C15_nodes_in_closure / C15_started_in_closure ("exactly": nothing outside the
     closure of the selection gets a node / is started).  Liveness of the target rule stays with the monitor targetOK.
 (K) generated dodo namespaces: static tasks + `create_after` creators (executed / creates=[..] / target_regex,
@@ -82,9 +82,10 @@ META = {
                    'initial table.  "The producer is eventually processed" (liveness half of targetOK) is a monitor '
                    'on every implementation trace.  '
                    'The model is tied to doit on every run by trace acceptance.'),
-    'level_note': ('created_obey is proved for the node-held Task objects; a decidable input condition that excludes '
-                   're-definition of an already started task (self.tasks[nt.name] = nt has no guard) is not proved, '
-                   'C15_created_obey_table carries it as a state hypothesis.  Target: liveness is monitor-only.  '
+    'level_note': ('created_obey is proved without extra hypotheses for the node-held Task objects and under noRedefB '
+                   '(evaluated on every case: hyp:noredef) for TaskControl.tasks; self.tasks[nt.name] = nt has no '
+                   'guard, so re-definition of an executed task is possible in doit.  Target: liveness is '
+                   'monitor-only.  '
                    'Regex matching and the creators are '
                    'oracles (computed by the harness with Python re / from the generated yields).  Parallel runners '
                    'are over-approximated (no worker accounting; that is C02).  Both findings made by this check '
